@@ -147,34 +147,48 @@ def queue_oracle(maxf, ops, per_op):
 
 
 def drain_oracle(maxf, ops):
-    """drain(h) completes for every connection whose packets are all completed or
-    discarded (run on an event loop)."""
+    """drain(h) completes as soon as every packet handed over for h has been completed
+    or discarded (run on an event loop; liveness only: the code sets the event whenever
+    the in-flight count of the connection reaches zero, even if more of its packets are
+    still waiting for a credit - see DESIGN.md, C04 open question;
+    the ledger is computed from the send callback and the operations, not from the
+    queue's private counters)."""
     from bumble.host import DataPacketQueue
 
     async def main():
-        q = DataPacketQueue(27, maxf, lambda p: None)
+        handle_of = {}
+        ledger = {}
+
+        def send(p):
+            h = handle_of[p]
+            ledger[h] = ledger.get(h, 0) + 1
+
+        q = DataPacketQueue(27, maxf, send)
         waiters = {}
         bad = None
-        ledger = {}
         for i, o in enumerate(ops):
             if o[0] == 'E':
+                handle_of[o[1]] = o[2]
                 q.enqueue(o[1], o[2])
             elif o[0] == 'F':
+                ledger.pop(o[1], None)      # before the call: the call may hand over more
                 q.flush(o[1])
             else:
+                if o[2] in ledger:
+                    ledger[o[2]] = max(0, ledger[o[2]] - o[1])
                 q.on_packets_completed(o[1], o[2])
-            # start a waiter on every known connection
-            for h in list(q._connection_state):
+            # start a waiter on every connection that has had a packet handed over
+            for h in list(ledger):
                 if h not in waiters or waiters[h].done():
                     waiters[h] = asyncio.ensure_future(q.drain(h))
             await asyncio.sleep(0)
             await asyncio.sleep(0)
             for h, w in waiters.items():
-                st = q._connection_state.get(h)
-                if (st is None or st.in_flight == 0) and not w.done():
+                if ledger.get(h, 0) == 0 and not w.done():
                     bad = f'op {i} {o}: drain({h}) still pending although nothing is in flight for it'
         for w in waiters.values():
             w.cancel()
+        await asyncio.sleep(0)
         return bad
     return asyncio.run(main())
 
@@ -235,10 +249,21 @@ def run_pipe_impl(threshold, ops, with_drain):
                     gate.pop(0).set_result(None)
             await settle()
         q = [p for p in pipe.queue]
+        ntrace = len(trace)
+        # liveness epilogue (not part of the compared trace): let the sink make progress
+        # until nothing moves any more
+        for _ in range(2 * len(ops) + 4):
+            if not gate:
+                break
+            gate.pop(0).set_result(None)
+            await settle()
+        final_q = [p for p in pipe.queue]
+        epilogue = trace[ntrace:]
+        del trace[ntrace:]
         pipe.stop()
         for g in gate:
             g.cancel()
-        return trace, q
+        return trace, q, epilogue, final_q
     return asyncio.run(main())
 
 
@@ -336,35 +361,39 @@ def run(ctx):
     model = ctx.coq_eval(['Model.Pipe'], exprs)
     it = iter(model)
     for t, ops, wd in pcases:
-        trace, q = run_pipe_impl(t, ops, wd)
-        nwrites = sum(1 for o in ops if o[0] == 'W')
-        ctx.case(('p', t, ops, wd), nwrites >= 2, None)
-        ctx.count('pipe.histories')
-        ctx.count('pipe.with_drain_sink' if wd else 'pipe.no_drain_sink')
-        written = [o[1] for o in ops if o[0] == 'W']
-        sunk = [x for x in trace if x >= 0]
-        queued = [p[0] if p else None for p in q]
-        if wd:
-            mtrace, mq = next(it)
-            if [list(mtrace), list(mq)] != [trace, [x for x in queued]]:
-                # zero-length packets carry no id on the implementation side
-                if not any(o[0] == 'W' and o[2] == 0 for o in ops):
-                    ctx.disagree('FlowControlAsyncPipe', {'threshold': t, 'ops': ops}, [mtrace, mq], [trace, queued])
-        # oracle: sink calls are a prefix of the writes, the rest is still queued
-        ids_only = not any(o[0] == 'W' and o[2] == 0 for o in ops)
-        if ids_only:
-            if sunk + queued != written:
-                ctx.violation('pipe:order', f'pipe threshold={t}: sink got {sunk}, queue {queued}, written {written}',
-                              {'kind': 'pipe', 'threshold': t, 'ops': ops, 'with_drain': wd})
+        mres = next(it) if wd else None
+        check_pipe_case(ctx, t, ops, wd, mres)
+
+
+def check_pipe_case(ctx, t, ops, wd, mres):
+    trace, q, epilogue, final_q = run_pipe_impl(t, ops, wd)
+    nwrites = sum(1 for o in ops if o[0] == 'W')
+    ctx.case(('p', t, ops, wd), nwrites >= 2, None)
+    ctx.count('pipe.histories')
+    ctx.count('pipe.with_drain_sink' if wd else 'pipe.no_drain_sink')
+    written = [o[1] for o in ops if o[0] == 'W']
+    sunk = [x for x in trace if x >= 0]
+    queued = [p[0] for p in q]
+    if mres is not None:
+        mtrace, mq = mres
+        if [list(mtrace), list(mq)] != [trace, queued]:
+            ctx.disagree('FlowControlAsyncPipe', {'threshold': t, 'ops': ops}, [mtrace, mq], [trace, queued])
+    # oracle: sink calls are a prefix of the writes, the rest is still queued, in order
+    replay = {'kind': 'pipe', 'threshold': t, 'ops': ops, 'with_drain': wd}
+    if sunk + queued != written:
+        ctx.violation('pipe:order', f'pipe threshold={t}: sink got {sunk}, queue {queued}, written {written}', replay)
+    paused = False
+    for o in ops:
+        if o[0] == 'P':
+            paused = True
+        elif o[0] == 'R':
             paused = False
-            for o in ops:
-                if o[0] == 'P':
-                    paused = True
-                elif o[0] == 'R':
-                    paused = False
-            if not wd and not paused and queued:
-                ctx.violation('pipe:stall', f'pipe threshold={t}: not paused, no drain, but {queued} still queued',
-                              {'kind': 'pipe', 'threshold': t, 'ops': ops, 'with_drain': wd})
+    # oracle: never stalls: when the pipe is not paused and the sink keeps making
+    # progress, everything written is delivered
+    final_sunk = sunk + [x for x in epilogue if x >= 0]
+    if not paused and (final_q or final_sunk != written):
+        ctx.violation('pipe:stall', f'pipe threshold={t}: not paused, sink idle, but {[p[0] for p in final_q]} never '
+                                    f'delivered (delivered {final_sunk}, written {written})', replay)
 
 
 def _shape(ops):
@@ -381,6 +410,27 @@ def search(ctx):
                 ctx.violation('queue:search:' + _shape(ops), f'DataPacketQueue max_in_flight={maxf}: {bad}',
                               {'kind': 'queue', 'max_in_flight': maxf, 'ops': ops, 'via_host': False})
                 return
+    search_pipe(ctx)
+
+
+def search_pipe(ctx):
+    alphabet = [['W', None, 1], ['W', None, 5], ['P'], ['R'], ['D']]
+    for depth in (3, 4, 5, 6):
+        for t in (0, 10):
+            for seq in itertools.product(alphabet, repeat=depth):
+                ops = []
+                pid = 0
+                for o in seq:
+                    if o[0] == 'W':
+                        ops.append(['W', pid, o[2]])
+                        pid += 1
+                    else:
+                        ops.append(list(o))
+                for wd in (True, False):
+                    before = len(ctx.violations)
+                    check_pipe_case(ctx, t, ops, wd, None)
+                    if len(ctx.violations) > before:
+                        return
 
 
 def replay(ctx, obj):
@@ -392,5 +442,5 @@ def replay(ctx, obj):
     elif r['kind'] == 'drain':
         print('oracle:', drain_oracle(r['max_in_flight'], r['ops']) or 'holds')
     else:
-        print(run_pipe_impl(r['threshold'], r['ops'], r['with_drain']))
+        print('trace, queue, epilogue, final queue:', run_pipe_impl(r['threshold'], r['ops'], r['with_drain']))
     return 0
